@@ -615,10 +615,17 @@ func engineStatic(which string) engineFn {
 					pos         int
 				}
 				var inserted []ins
+				longRunIn := ""
+				if i%12 == 2 {
+					longRunIn = []string{"routes.txt", "trips.txt", "stops.txt", "transfers.txt"}[(i/12)%4] // every run has its long runs, file by file
+				}
 				for k := 1 + g.r.Intn(8); k > 0; k-- {
 					name := ff.tables[g.r.Intn(len(ff.tables))].name
 					if g.coin(0.3) { // the row loop with the most state carried from row to row
 						name = "stop_times.txt"
+					}
+					if longRunIn != "" && ff.table(longRunIn) != nil {
+						name = longRunIn
 					}
 					row, cause := g.rejectedRow(f, name)
 					if row == nil {
@@ -628,7 +635,8 @@ func engineStatic(which string) engineFn {
 					pos := g.r.Intn(len(t.rows) + 1)
 					ins1 := []srow{row}
 					runMax := 4
-					if g.coin(0.06) {
+					if g.coin(0.06) || longRunIn != "" {
+						longRunIn = ""
 						runMax = 101 + g.r.Intn(60) // and long runs: the hundred-and-first rejected row of a file is rejected like the first
 					}
 					for (runMax > 4 || g.coin(0.4)) && len(ins1) < runMax { // runs of identical rejected rows (same unknown id on consecutive rows)
